@@ -41,6 +41,8 @@ EXPLICIT_QUERIES = [
     '* | limit | limit -1 | limit 9223372036854775807 | limit -9223372036854775808',
     # wide aggregate tables in the default output: cells are shortened with an ellipsis (also multi-byte text)
     '* | json | count by s, k, t', '* | logfmt | count by msg, a', '* | parse "msg=*" as m | count by m',
+    # more columns than distinct column names (KF-06) on a table wider than the terminal: the width allocation must not fault
+    '* | json | sum(a), sum(b), p50(a), max(s), max(k)', '* | json | sum(a), sum(b), sum(id) by s, k', '* | json | count by s | count by _count, s',
 ]
 
 
@@ -129,6 +131,16 @@ def explore(ctx):
                 failures.append({'kind': 'spec', 'what': '%s on input class "%s": %s' % (q[:120], name, why),
                                  'payload': {'query': q, 'mode': mode, 'input_class': name, 'input_head': data[:300].decode('utf8', 'replace'), 'input_len': len(data),
                                              'binary': binary or 'debug', 'stderr_tail': err[-400:]}})
+    # reads to END OF INPUT whatever the bytes are: the number of lines counted is the number of lines given
+    for name, data in inputs:
+        nlines = data.count(b'\n') + (1 if data and not data.endswith(b'\n') else 0)
+        o = aglib.run_impl_one('* | count', data, 'json', timeout=60)
+        evaluations += 1
+        want = b'[{"_count":%d}]\n' % nlines if nlines else b'[]\n'
+        if o['rc'] != 0 or o['out'] != want:
+            failures.append({'kind': 'spec', 'what': '`* | count` on input class "%s" (%d lines): rc=%s, output %r, expected %r' % (name, nlines, o['rc'], o['out'][:80], want),
+                             'payload': {'query': '* | count', 'input_class': name, 'input_head': data[:300].decode('utf8', 'replace'), 'input_len': len(data),
+                                         'stderr_tail': o['err'].decode('utf8', 'replace')[-300:]}})
     # a bad row is skipped without changing the result for any other row (and reported on stderr before an aggregation)
     iso = 0
     for i in range(30 if quick else 600):
@@ -245,7 +257,7 @@ def explore(ctx):
     cov = {
         'evaluations': evaluations + iso + srcs + len(cases), 'input_source_runs': srcs, 'distinct_nontrivial': sum(v for k, v in classes.items() if k != 'well formed'),
         'rule': '%d accepted queries (an explicit list covering every function, operator and option incl. date/duration arithmetic, aliases, percentiles, parse regex; plus grammar-generated pipelines) '
-                'x %d input classes (empty, huge line, binary, invalid UTF-8, CRLF, no final newline, NULs, extreme numbers/dates, deep JSON, ...); observed: exit status 0, no panic text, no watchdog; '
+                'x %d input classes (empty, huge line, binary, invalid UTF-8, CRLF, no final newline, NULs, extreme numbers/dates, deep JSON, ...); observed: exit status 0, no panic text, no watchdog, and `* | count` equal to the number of lines of every input class; '
                 'bad-row isolation; the same input attached as pipe / redirected file / --file regular file / --file named pipe / --file /dev/stdin, count against the number of lines; non-trivial = any input class other than "well formed"' % (len(queries), len(inputs)),
         'samples': [{'query': q} for q in queries[:3]] + [{'input_class': n} for n, _d in inputs[:4]],
         'input_classes': classes, 'queries': len(queries), 'isolation_cases': iso,
